@@ -47,6 +47,9 @@ func main() {
 	for i := 0; i < ctx.Scale(150, 10000); i++ {
 		chains = append(chains, txsim.GenChain(rc))
 	}
+	for i := 0; i < ctx.Scale(60, 4000); i++ {
+		chains = append(chains, txsim.GenChainPoS(rc))
+	}
 	txsim.RunChains(ctx, "C07", chains)
 	ctx.Finish(txsim.Rule+txsim.ChainRule, txsim.Assumptions)
 }
